@@ -36,7 +36,7 @@ CW = 'chainables.courier_worker'
 
 
 def run(ctx: Ctx):
-  for r in (r1, r2, r3, r4, r5, r6, r7, r10, r11, r13, r14):
+  for r in (r1, r2, r3, r4, r5, r6, r7, r10, r11, r13, r14, r15, r16):
     ctx.guard(r)
   from mlmverif.props import c03
   ctx.include('R-C16-9', '"delivers exactly one final aggregate result": the'
@@ -616,11 +616,97 @@ def r14(ctx: Ctx):
   ctx.floor(rule, 2, n)
 
 
+def r15(ctx: Ctx):
+  rule = 'R-C16-15'
+  ctx.rule(rule, '"the same multiset of output batches": one request for the next remote batch is in'
+           ' flight at a time, and none is issued once the end marker has been seen. In'
+           ' CourierClient.async_iterate every path from receiving a batch (the await) to the next'
+           ' `next_batch_from_generator` request passes the loop test on the exhaustion flag — i.e.'
+           ' the batch is looked at first. A request sent before that (pipelining) is still in flight'
+           ' when the shard ends; on a worker that is reused at once it reaches the NEXT shard\'s'
+           ' generator, dequeues its first batches and its answer is discarded')
+  fi = ctx.repo.func('utils.courier_utils', 'CourierClient.async_iterate')
+  g = cfgm.cfg_of(fi.node)
+  req = lambda nd: any(isinstance(c, ast.Call) and unparse(c.func).endswith('next_batch_from_generator')
+                       for c in cfgm.node_exprs(nd))
+  reqs = [nd for nd in g.nodes if nd.kind in ('stmt', 'cond') and req(nd)]
+  if not reqs:
+    raise AnalysisError(f'{rule}: async_iterate no longer requests batches with next_batch_from_generator')
+  # the variable holding the request's future, and the awaits of it
+  fut = {t.id for nd in reqs if isinstance(nd.ast, ast.Assign) for t in nd.ast.targets if isinstance(t, ast.Name)}
+  recv = [nd for nd in g.nodes if nd.kind in ('stmt', 'cond') and any(
+      isinstance(x, ast.Await) and any(isinstance(y, ast.Name) and y.id in fut for y in ast.walk(x))
+      for x in cfgm.node_exprs(nd))]
+  loop_tests = [nd for nd in g.nodes if nd.kind == 'cond' and getattr(nd, 'is_loop', False) and isinstance(
+      nd.ast, (ast.UnaryOp, ast.Name, ast.Compare))]
+  if not recv or not loop_tests:
+    raise AnalysisError(f'{rule}: cannot find the receive point / the loop test of async_iterate')
+  n = 0
+  for rv in recv:
+    n += 1
+    starts = [s_ for s_, lab in rv.succ if lab not in ('exc', 'close')]
+    through = lambda nd: nd in loop_tests
+    bad = None
+    for s_ in starts:
+      if req(s_):
+        bad = [rv.text(), s_.text()]
+        break
+      reach = g.reachable([s_], avoid=through, edge_ok=cfgm.only_normal, include_src=True)
+      hit = [nd for nd in reach if req(nd)]
+      if hit:
+        bad = g.path_to(reach, hit[0])
+    if bad:
+      ctx.fail(rule, fi, 'async_iterate: the next batch is requested only after the current one was examined',
+               'a next_batch_from_generator request can be issued after a response arrived without passing the'
+               ' loop test on the exhaustion flag (' + ' -> '.join(str(x_).split(':', 2)[-1][:40] for x_ in bad[-3:]) + '):'
+               ' when that response carried the end marker, one request too many is already on its way', node=rv.ast)
+    else:
+      ctx.ok(rule, fi, 'request -> await -> examine -> loop test -> request', rv.ast)
+  ctx.floor(rule, 1, n)
+
+
+def r16(ctx: Ctx):
+  rule = 'R-C16-16'
+  ctx.rule(rule, '"for any number of workers and shards": the number of shards a run is split into is a'
+           ' function of the CONFIGURATION (the explicit num_shards, else the size of the pool), never of'
+           ' which workers happen to be known alive at that moment: the default for num_shards in the'
+           ' orchestration functions does not read a liveness-dependent property of the pool (one whose'
+           ' implementation consults is_alive: workers, idle_workers, ...). On a cold pool such a'
+           ' property is empty — zero shards, no batches, an empty aggregate and no error')
+  repo = ctx.repo
+  wp = repo.cls('chainables.courier_worker', 'WorkerPool')
+  live = {name for name, m_ in wp.methods.items() if any(
+      isinstance(y, ast.Attribute) and y.attr == 'is_alive' for y in ast.walk(m_.node))}
+  if 'workers' not in live:
+    raise AnalysisError(f'{rule}: WorkerPool.workers no longer depends on is_alive (table: {sorted(live)})')
+  n = 0
+  for fi in repo.all_functions():
+    if not fi.module.name.endswith('orchestrate'):
+      continue
+    for x in walk_no_nested(fi.node):
+      if isinstance(x, ast.Assign) and any(isinstance(t, ast.Name) and t.id == 'num_shards' for t in x.targets):
+        n += 1
+        bad = [y for y in ast.walk(x.value) if isinstance(y, ast.Attribute) and y.attr in live]
+        if bad:
+          ctx.fail(rule, fi, f'{fi.qualname}: num_shards comes from the configuration',
+                   f'`{unparse(x)[:60]}` derives the number of shards from `{unparse(bad[0])}`, which only lists workers'
+                   ' currently known alive: before the pool has connected it is empty, the run is split into 0'
+                   ' shards and returns an empty aggregate without any error', node=x)
+        else:
+          ctx.ok(rule, fi, f'{fi.qualname}: `{unparse(x)[:50]}`', x)
+  ctx.floor(rule, 1, n)
+
+
 from mlmverif.selfcheck import B, OK  # noqa: E402
 
 _T = 'chainables/transform.py'
 _O = 'chainables/orchestrate.py'
 VARIANTS = [
+    B('default-shards-from-live-workers', _O,
+      '  num_shards = num_shards or worker_pool.num_workers', '  num_shards = num_shards or len(worker_pool.workers)', 'R-C16-16'),
+    B('client-pipelines-next-batch-request', 'utils/courier_utils.py',
+      '        assert isinstance(output_batch, list), f\'{type(output_batch)}\'\n',
+      '        assert isinstance(output_batch, list), f\'{type(output_batch)}\'\n        output_state = self.next_batch_from_generator(self.iterate_batch_size)\n', 'R-C16-15'),
     OK('sharded-merge-armed-with-num-shards', _O,
        '      merged_state = agg_fn.merge_states(iterate_agg_state())',
        '      merged_state = agg_fn.merge_states(iterate_agg_state(), strict_states_cnt=num_shards)', count=1),
